@@ -541,3 +541,90 @@ Fixpoint plain_type (t : schema) : bool :=
   end.
 Definition named_env (e : env) : bool :=
   forallb (fun p => match strip (snd p) with SRecord _ _ _ | SEnum _ _ _ _ | SFixed _ _ _ => true | _ => false end) e.
+
+(** ** C20 "generated values are written and read back": the computable side conditions.
+    [safe_py v]: integers are 64-bit, every float narrows to binary32 without overflow, no tuples / bytearrays -- true of
+    everything gen_data produces (floats in [0,1)), required of the JSON defaults of the schema;
+    [gschb n e s]: the reference graph below s is acyclic within n steps (every reference resolves), record field types are
+    of the shape parse_schema produces ([plain_type]) and their defaults are [safe_py]. *)
+Local Close Scope string_scope.
+Fixpoint safe_py (v : pyval) : bool :=
+  match v with
+  | PInt z => (- 2 ^ 63 <=? z) && (z <=? 2 ^ 63)
+  | PFloat b => match d2s b with Ok _ => true | _ => false end
+  | PByteArray _ | PTuple _ => false
+  | PBytes b => forallb is_byteb b
+  | PList l => forallb safe_py l
+  | PDict kv => forallb (fun p => safe_py (fst p) && safe_py (snd p)) kv
+  | _ => true
+  end.
+
+Fixpoint gschb (n : nat) (e : env) (s : schema) {struct n} : bool :=
+  match n with
+  | O => false
+  | S n =>
+      match s with
+      | SArray s' | SMap s' | SAnnot _ s' => gschb n e s'
+      | SUnion bs => forallb (gschb n e) bs
+      | SRecord _ _ fs =>
+          forallb (fun fd => gschb n e (ftype fd) && plain_type (ftype fd) &&
+                             match fdefault fd with Some d => safe_py d | None => true end) fs
+      | SRef nm => match lookup e nm with Some s' => gschb n e s' | None => false end
+      | _ => true
+      end
+  end.
+
+(* sizes and names the generator copies into its values are well-formed data: fixed sizes below 2^63, enum symbols and
+   field names valid strings, fewer than 2^63 fields *)
+Fixpoint genokb (s : schema) : bool :=
+  match s with
+  | SFixed _ _ size => size <? 2 ^ 63
+  | SEnum _ _ syms _ => forallb (fun x => wf_py (PStr x)) syms
+  | SArray s' | SMap s' | SAnnot _ s' => genokb s'
+  | SUnion bs => forallb genokb bs
+  | SRecord _ _ fs => (len fs <? 2 ^ 63) && forallb (fun fd => wf_py (PStr (fname fd)) && genokb (ftype fd)) fs
+  | _ => true
+  end.
+Definition genok_env (e : env) : bool := forallb (fun p => genokb (snd p)) e.
+
+(* K3: the model's readers and writers ignore logicalType annotations (stored values only).  A generated value may be filed
+   by the branch search under ANOTHER branch than the one it was generated for; when that branch carries a logicalType the
+   real reader applies that type's conversion (a generated enum symbol under [string-uuid, enum] is read with uuid.UUID and
+   fails).  [unions_plain s]: no union branch carries a logicalType -- then "read back" in the model is "read back" by the
+   real readers as far as unions are concerned. *)
+Fixpoint unions_plain (s : schema) : bool :=
+  match s with
+  | SArray s' | SMap s' | SAnnot _ s' => unions_plain s'
+  | SUnion bs => forallb (fun b => match b with SAnnot (_ :: _) _ => false | _ => true end && unions_plain b) bs
+  | SRecord _ _ fs => forallb (fun fd => unions_plain (ftype fd)) fs
+  | _ => true
+  end.
+
+(** C01 idempotence of the normal form: the side condition.  Like [closb], for a reader WITHOUT named-type reporting: every
+    union value comes back plain and must re-resolve to the same branch under the writer's search. *)
+Fixpoint closb0 (n : nat) (o : wopts) (e : env) (s : schema) (a : aval) {struct n} : bool :=
+  match n with
+  | O => false
+  | S n =>
+    match s, a with
+    | SEnum _ _ syms _, AEnum i => match nthZ syms i with Some x => optZ_eqb (index_of syms x 0) i | None => false end
+    | SArray it, AArray l => forallb (closb0 n o e it) l
+    | SMap vs, AMap l => nodup_str (map fst l) && forallb (fun kx => closb0 n o e vs (snd kx)) l
+    | SRecord _ _ fs, ARecord l => nodup_str (field_names fs) && forall2b (fun fd x => closb0 n o e (ftype fd) x) fs l
+    | SUnion bs, AUnion i x =>
+        match nthZ bs i with
+        | None => false
+        | Some b =>
+            closb0 n o e b x &&
+            match py_of ropts0 e b x with
+            | Some pv0 =>
+                match pv0 with PTuple _ => false | _ => true end &&
+                resZ_eqb (choose (fun c y => validate n o e c (Some y)) e pv0 bs 0 (-1) (-1) false) i
+            | None => false
+            end
+        end
+    | SRef nm, _ => match lookup e nm with Some s' => closb0 n o e s' a | None => false end
+    | SAnnot _ s', _ => closb0 n o e s' a
+    | _, _ => true
+    end
+  end.
